@@ -106,7 +106,7 @@ def run_contracts(repo_src, verif, sidecars, select, tier, seed, jobs, ledger=No
     # Solver budgets are wall-clock: with all cores busy an obligation may come back `unknown` (or a contract may crash on a
     # path that a timed-out feasibility query failed to prune).  Such contracts are re-run once, alone, with a tripled budget;
     # verdicts `failed` (counter-model found) are never re-run.
-    redo = [k for k, r in enumerate(results) if r['status'] in ('undecided', 'crash', 'contract-error') or _unstable(r, ledger)]
+    redo = [k for k, r in enumerate(results) if r['status'] in ('undecided', 'crash', 'contract-error') or (r['status'] == 'out-of-subset' and 'not evaluable on this path' in ' '.join(r.get('notes', []))) or _unstable(r, ledger)]
     if redo:
         _CFG['timeout_ms'] *= 3
         from .values import CTX
@@ -384,10 +384,11 @@ def replay_file(path, repo_src, verif):
 
 
 def update_ledger(repo_src, verif, jobs):
+    previous = load_json(os.path.join(verif, 'contracts', 'ledger.json'), {})
     ledger = {}
     for pid in plan.all_properties():
         spec = plan.PROPS[pid]
-        e, results, load_errors = run_contracts(repo_src, verif, spec['sidecars'], lambda c: pid in c['props'], 'quick', 0, jobs)
+        e, results, load_errors = run_contracts(repo_src, verif, spec['sidecars'], lambda c: pid in c['props'], 'quick', 0, jobs, ledger=previous)
         for r in results:
             for o in r.get('obligations', []):
                 k = obligation_key(r, o)
